@@ -2,11 +2,11 @@
    wrapping; Ethereum messages only on the Ethereum path; authenticated mempool.
    Property theorems only; proofs are in Proofs/Ante.v.
 
-   [ante cfg md t rest] is the composed handler of app/ante/ante.go on the
+   [ante cfg md t o] is the composed handler of app/ante/ante.go on the
    transaction [t] (rose tree of messages, extension-option URLs, signers) in
-   mode [md] under the mempool configuration [cfg]; [rest] is the oracle bit
-   for everything the SDK / ethermint / ibc decorators decide — every theorem
-   holds for both values. *)
+   mode [md] under the mempool configuration [cfg]; [o] is the oracle (two
+   bits) for everything the SDK / ethermint / ibc decorators decide before and
+   after Kava's gates — every theorem holds for all its values. *)
 From Coq Require Import String.
 From Kava Require Import Base.Prelude Model.Ante Proofs.Ante.
 
@@ -15,8 +15,8 @@ From Kava Require Import Base.Prelude Model.Ante Proofs.Ante.
    (top level or nested) targets a disabled type.  [sub m top] is the
    inductive "occurs inside an Exec of top at some depth" relation: the
    statement has no bound on depth or width. *)
-Theorem C15_no_blocked_inside : forall cfg md t rest p,
-  ante cfg md t rest = Accept p ->
+Theorem C15_no_blocked_inside : forall cfg md t o p,
+  ante cfg md t o = Accept p ->
   forall top, In top (t_msgs t) ->
     (forall m, sub m top -> ~ In (msg_url m) disabled_types) /\
     (forall m tg, (m = top \/ sub m top) -> m = Grant tg -> ~ In tg disabled_types).
@@ -24,8 +24,8 @@ Proof. exact no_blocked_inside. Qed.
 Print Assumptions C15_no_blocked_inside.
 
 (* the same with the four concrete types spelled out *)
-Theorem C15_no_eth_or_vesting_inside : forall cfg md t rest p,
-  ante cfg md t rest = Accept p ->
+Theorem C15_no_eth_or_vesting_inside : forall cfg md t o p,
+  ante cfg md t o = Accept p ->
   forall top m, In top (t_msgs t) -> sub m top ->
     msg_url m <> url_eth /\ msg_url m <> url_vest_create /\
     msg_url m <> url_vest_perm /\ msg_url m <> url_vest_periodic /\
@@ -51,15 +51,15 @@ Print Assumptions C15_descendants_is_any_depth.
 
 (* a disabled type under n+1 nested Execs, after and before arbitrary siblings,
    is refused in every mode, configuration and option list: for every n *)
-Theorem C15_deep_blocked_rejected : forall cfg md n u before after others signers opts rest,
+Theorem C15_deep_blocked_rejected : forall cfg md n u before after others signers opts o,
   In u disabled_types ->
-  exists r, ante cfg md (mkTx (before ++ wrap (S n) (Plain u) :: after ++ others) opts signers) rest = Reject r.
+  exists r, ante cfg md (mkTx (before ++ wrap (S n) (Plain u) :: after ++ others) opts signers) o = Reject r.
 Proof. exact deep_blocked_rejected. Qed.
 Print Assumptions C15_deep_blocked_rejected.
 
 (* Clause 1b.  Vesting-account-creation messages are rejected at top level. *)
-Theorem C15_vesting_top_level : forall cfg md t rest p,
-  ante cfg md t rest = Accept p ->
+Theorem C15_vesting_top_level : forall cfg md t o p,
+  ante cfg md t o = Accept p ->
   forall top, In top (t_msgs t) -> ~ In (msg_url top) vesting_types.
 Proof. exact vesting_top_level. Qed.
 Print Assumptions C15_vesting_top_level.
@@ -68,78 +68,70 @@ Print Assumptions C15_vesting_top_level.
    inside Execs) is accepted only through the Ethereum path, selected by
    exactly the one option ExtensionOptionsEthereumTx; that path accepts nothing
    but MsgEthereumTx messages. *)
-Theorem C15_eth_only_on_eth_path : forall cfg md t rest p,
-  ante cfg md t rest = Accept p -> contains_eth t ->
+Theorem C15_eth_only_on_eth_path : forall cfg md t o p,
+  ante cfg md t o = Accept p -> contains_eth t ->
   p = PEth /\ t_opts t = [opt_eth].
 Proof. exact eth_only_on_eth_path. Qed.
 Print Assumptions C15_eth_only_on_eth_path.
 
-Theorem C15_eth_path_only_eth_msgs : forall cfg md t rest,
-  ante cfg md t rest = Accept PEth ->
+Theorem C15_eth_path_only_eth_msgs : forall cfg md t o,
+  ante cfg md t o = Accept PEth ->
   t_opts t = [opt_eth] /\ forall top, In top (t_msgs t) -> top = Plain url_eth.
 Proof. exact eth_path_only_eth_msgs. Qed.
 Print Assumptions C15_eth_path_only_eth_msgs.
 
-Theorem C15_no_options_rejects_eth : forall cfg md t rest,
-  t_opts t = [] -> contains_eth t -> exists r, ante cfg md t rest = Reject r.
+Theorem C15_no_options_rejects_eth : forall cfg md t o,
+  t_opts t = [] -> contains_eth t -> exists r, ante cfg md t o = Reject r.
 Proof. exact no_options_rejects_eth. Qed.
 Print Assumptions C15_no_options_rejects_eth.
 
-Theorem C15_several_options_rejected : forall cfg md t rest,
-  (2 <= length (t_opts t))%nat -> ante cfg md t rest = Reject RExtMany.
+Theorem C15_several_options_rejected : forall cfg md t o,
+  (2 <= length (t_opts t))%nat -> ante cfg md t o = Reject RExtMany.
 Proof. exact several_options_rejected. Qed.
 Print Assumptions C15_several_options_rejected.
 
-Theorem C15_unknown_option_rejected : forall cfg md t rest o,
-  t_opts t = [o] -> o <> opt_eth -> o <> opt_web3 -> ante cfg md t rest = Reject RExtUnknown.
+Theorem C15_unknown_option_rejected : forall cfg md t o u,
+  t_opts t = [u] -> u <> opt_eth -> u <> opt_web3 -> ante cfg md t o = Reject RExtUnknown.
 Proof. exact unknown_option_rejected. Qed.
 Print Assumptions C15_unknown_option_rejected.
 
 (* Clause 3.  With fetchers configured, CheckTx and ReCheckTx accept only
-   transactions with an authorised signer.  The full statement is false of the
-   code as written — the Ethereum path has no AuthenticatedMempoolDecorator —
-   so it comes as the pair _refuted / _partial (guard: not the Ethereum path). *)
-Theorem C15_mempool_gate_refuted :
-  exists cfg md t rest p,
-    c_fetchers cfg = true /\ md = CheckTx /\ ante cfg md t rest = Accept p /\
-    ~ exists s, In s (t_signers t) /\ In s (c_authorised cfg).
-Proof. exact mempool_gate_refuted. Qed.
-Print Assumptions C15_mempool_gate_refuted.
-
-Theorem C15_mempool_gate_partial : forall cfg md t rest p,
+   transactions with an authorised signer — on every path (the Ethereum chain
+   has carried the AuthenticatedMempoolDecorator since the fix commit
+   77ff26c0d; before it this statement was refuted by an Ethereum tx). *)
+Theorem C15_mempool_gate : forall cfg md t o p,
   c_fetchers cfg = true -> (md = CheckTx \/ md = ReCheckTx) ->
-  ante cfg md t rest = Accept p -> p <> PEth ->
+  ante cfg md t o = Accept p ->
   exists s, In s (t_signers t) /\ In s (c_authorised cfg).
-Proof. exact mempool_gate_partial. Qed.
-Print Assumptions C15_mempool_gate_partial.
+Proof. exact mempool_gate. Qed.
+Print Assumptions C15_mempool_gate.
 
-Theorem C15_mempool_gate_rejects_unauthorised : forall cfg md t rest,
+Theorem C15_mempool_gate_rejects_unauthorised : forall cfg md t o,
   c_fetchers cfg = true -> (md = CheckTx \/ md = ReCheckTx) ->
-  t_opts t <> [opt_eth] ->
   (forall s, In s (t_signers t) -> ~ In s (c_authorised cfg)) ->
-  exists r, ante cfg md t rest = Reject r.
+  exists r, ante cfg md t o = Reject r.
 Proof. exact gate_rejects_unauthorised. Qed.
 Print Assumptions C15_mempool_gate_rejects_unauthorised.
 
 (* block execution (and simulation) is unaffected by the mempool configuration *)
-Theorem C15_deliver_unaffected : forall cfg cfg' md t rest,
-  (md = DeliverTx \/ md = Simulate) -> ante cfg md t rest = ante cfg' md t rest.
+Theorem C15_deliver_unaffected : forall cfg cfg' md t o,
+  (md = DeliverTx \/ md = Simulate) -> ante cfg md t o = ante cfg' md t o.
 Proof. exact gate_inactive_unaffected. Qed.
 Print Assumptions C15_deliver_unaffected.
 
 (* the gate rejects nothing else: with an authorised signer (or no fetchers)
    the verdict is the one of the unauthenticated configuration *)
-Theorem C15_gate_transparent : forall cfg md t rest,
+Theorem C15_gate_transparent : forall cfg md t o,
   (c_fetchers cfg = false \/ exists s, In s (t_signers t) /\ In s (c_authorised cfg)) ->
-  ante cfg md t rest = ante (mkCfg false []) md t rest.
+  ante cfg md t o = ante (mkCfg false []) md t o.
 Proof. exact gate_transparent. Qed.
 Print Assumptions C15_gate_transparent.
 
 (* Acceptance on the plain cosmos path characterised exactly: the gates are
    the only reasons to refuse (so the theorems above are not vacuous). *)
-Theorem C15_cosmos_acceptance_characterised : forall cfg md msgs signers rest,
-  ante cfg md (mkTx msgs [] signers) rest = Accept PCosmos <->
-  (rest = true /\
+Theorem C15_cosmos_acceptance_characterised : forall cfg md msgs signers o,
+  ante cfg md (mkTx msgs [] signers) o = Accept PCosmos <->
+  (o_pre o = true /\ o_post o = true /\
    (forall top, In top msgs -> top <> Plain url_eth) /\
    (c_fetchers cfg = true -> (md = CheckTx \/ md = ReCheckTx) ->
       exists s, In s signers /\ In s (c_authorised cfg)) /\
@@ -150,62 +142,78 @@ Theorem C15_cosmos_acceptance_characterised : forall cfg md msgs signers rest,
 Proof. exact cosmos_acceptance_characterised. Qed.
 Print Assumptions C15_cosmos_acceptance_characterised.
 
+Theorem C15_eth_acceptance_characterised : forall cfg md msgs signers o,
+  ante cfg md (mkTx msgs [opt_eth] signers) o = Accept PEth <->
+  (o_pre o = true /\ o_post o = true /\
+   (forall top, In top msgs -> top = Plain url_eth) /\
+   (c_fetchers cfg = true -> (md = CheckTx \/ md = ReCheckTx) ->
+      exists s, In s signers /\ In s (c_authorised cfg))).
+Proof. exact eth_acceptance_characterised. Qed.
+Print Assumptions C15_eth_acceptance_characterised.
+
 (* the boolean invariant evaluated on every step of the correspondence run *)
-Theorem C15_inv_b_holds : forall cfg md t rest, inv_b cfg md t rest = true.
+Theorem C15_inv_b_holds : forall cfg md t o, inv_b cfg md t o = true.
 Proof. exact inv_b_holds. Qed.
 Print Assumptions C15_inv_b_holds.
 
 (** Non-vacuity witnesses (closed terms, vm_compute). *)
 
 Definition send : msg := Plain "/cosmos.bank.v1beta1.MsgSend"%string.
+Definition ok : oracle := mkOracle true true.
 
 (* accepted: nested execs around allowed messages and an allowed grant *)
 Example C15_ex_accept_nested :
   ante (mkCfg true [2%nat]) CheckTx
-       (mkTx [Exec [send; Exec [Grant "/cosmos.bank.v1beta1.MsgSend"%string; Exec [send]]]; send] [] [1%nat; 2%nat]) true
+       (mkTx [Exec [send; Exec [Grant "/cosmos.bank.v1beta1.MsgSend"%string; Exec [send]]]; send] [] [1%nat; 2%nat]) ok
   = Accept PCosmos.
 Proof. vm_compute. reflexivity. Qed.
 
 (* rejected: blocked type after allowed siblings, three levels down *)
 Example C15_ex_reject_deep :
   ante (mkCfg false []) DeliverTx
-       (mkTx [send; Exec [send; Exec [send; Exec [send; Plain url_vest_periodic]]]] [] [0%nat]) true
+       (mkTx [send; Exec [send; Exec [send; Exec [send; Plain url_vest_periodic]]]] [] [0%nat]) ok
   = Reject RAuthz.
 Proof. vm_compute. reflexivity. Qed.
 
 (* rejected: grant of a blocked type nested in an exec *)
 Example C15_ex_reject_grant_in_exec :
-  ante (mkCfg false []) DeliverTx (mkTx [Exec [send; Grant url_eth]] [] [0%nat]) true = Reject RAuthz.
+  ante (mkCfg false []) DeliverTx (mkTx [Exec [send; Grant url_eth]] [] [0%nat]) ok = Reject RAuthz.
 Proof. vm_compute. reflexivity. Qed.
 
 (* a blocked type at top level is not the authz decorator's business: the
    Ethereum message falls to RejectMessagesDecorator, vesting to its own *)
 Example C15_ex_top_level :
-  ante (mkCfg false []) DeliverTx (mkTx [Plain url_eth] [] [0%nat]) true = Reject REthMsg /\
-  ante (mkCfg false []) DeliverTx (mkTx [send; Plain url_vest_perm] [] [0%nat]) true = Reject RVesting.
+  ante (mkCfg false []) DeliverTx (mkTx [Plain url_eth] [] [0%nat]) ok = Reject REthMsg /\
+  ante (mkCfg false []) DeliverTx (mkTx [send; Plain url_vest_perm] [] [0%nat]) ok = Reject RVesting.
 Proof. split; vm_compute; reflexivity. Qed.
 
 (* the Ethereum path *)
 Example C15_ex_eth_path :
-  ante (mkCfg false []) DeliverTx (mkTx [Plain url_eth] [opt_eth] [6%nat]) true = Accept PEth /\
-  ante (mkCfg false []) DeliverTx (mkTx [Plain url_eth; send] [opt_eth] [6%nat]) true = Reject REthPath /\
-  ante (mkCfg false []) DeliverTx (mkTx [Plain url_eth] [opt_eth; opt_eth] [6%nat]) true = Reject RExtMany /\
-  ante (mkCfg false []) DeliverTx (mkTx [send] ["/ethermint.types.v1.ExtensionOptionDynamicFeeTx"%string] [0%nat]) true = Reject RExtUnknown /\
-  ante (mkCfg false []) DeliverTx (mkTx [Exec [Plain url_eth]] [opt_web3] [0%nat]) true = Reject RAuthz.
+  ante (mkCfg false []) DeliverTx (mkTx [Plain url_eth] [opt_eth] [6%nat]) ok = Accept PEth /\
+  ante (mkCfg false []) DeliverTx (mkTx [Plain url_eth; send] [opt_eth] [6%nat]) ok = Reject REthPath /\
+  ante (mkCfg false []) DeliverTx (mkTx [Plain url_eth] [opt_eth; opt_eth] [6%nat]) ok = Reject RExtMany /\
+  ante (mkCfg false []) DeliverTx (mkTx [send] ["/ethermint.types.v1.ExtensionOptionDynamicFeeTx"%string] [0%nat]) ok = Reject RExtUnknown /\
+  ante (mkCfg false []) DeliverTx (mkTx [Exec [Plain url_eth]] [opt_web3] [0%nat]) ok = Reject RAuthz.
 Proof. repeat split; vm_compute; reflexivity. Qed.
 
 (* the gate: same tx, authorised / unauthorised signer, CheckTx / ReCheckTx / DeliverTx / Simulate *)
 Example C15_ex_gate :
-  ante (mkCfg true [3%nat]) CheckTx (mkTx [send] [] [0%nat]) true = Reject RMempool /\
-  ante (mkCfg true [3%nat]) ReCheckTx (mkTx [send] [] [0%nat]) true = Reject RMempool /\
-  ante (mkCfg true [3%nat]) DeliverTx (mkTx [send] [] [0%nat]) true = Accept PCosmos /\
-  ante (mkCfg true [3%nat]) Simulate (mkTx [send] [] [0%nat]) true = Accept PCosmos /\
-  ante (mkCfg true [3%nat]) CheckTx (mkTx [send] [] [0%nat; 3%nat]) true = Accept PCosmos.
+  ante (mkCfg true [3%nat]) CheckTx (mkTx [send] [] [0%nat]) ok = Reject RMempool /\
+  ante (mkCfg true [3%nat]) ReCheckTx (mkTx [send] [] [0%nat]) ok = Reject RMempool /\
+  ante (mkCfg true [3%nat]) DeliverTx (mkTx [send] [] [0%nat]) ok = Accept PCosmos /\
+  ante (mkCfg true [3%nat]) Simulate (mkTx [send] [] [0%nat]) ok = Accept PCosmos /\
+  ante (mkCfg true [3%nat]) CheckTx (mkTx [send] [] [0%nat; 3%nat]) ok = Accept PCosmos /\
+  ante (mkCfg true [3%nat]) CheckTx (mkTx [Plain url_eth] [opt_eth] [6%nat]) ok = Reject RMempool /\
+  ante (mkCfg true [6%nat]) CheckTx (mkTx [Plain url_eth] [opt_eth] [6%nat]) ok = Accept PEth /\
+  ante (mkCfg true [3%nat]) DeliverTx (mkTx [Plain url_eth] [opt_eth] [6%nat]) ok = Accept PEth.
 Proof. repeat split; vm_compute; reflexivity. Qed.
 
 (* the tables the model was proved against *)
 Example C15_ex_tables :
-  length chain_names = 18%nat /\ length eth_chain_names = 9%nat /\
+  length chain_names = 18%nat /\ length eth_chain_names = 10%nat /\
+  eth_chain false = [DEthSetUpContext; DEthMempoolFee; DEthValidateBasic; DEthSigVerification; DEthAccountVerification;
+                     DCanTransfer; DEthGasConsume; DEthIncrementSenderSequence; DEthEmitEvent] /\
+  nth 4 eth_chain_names ""%string = "[len(options.AddressFetchers) > 0]NewAuthenticatedMempoolDecorator"%string /\
   cosmos_chain false true =
     [DRejectMessages; DSetUpContext; DExtensionOptions; DAuthenticatedMempool; DEvmMinGasFilter;
      DVestingAccount; DAuthzLimiter; DValidateBasic; DTxTimeoutHeight; DValidateMemo;
